@@ -477,6 +477,19 @@ package graphql
 //@   ensures c == nil || !held(&c.mu)
 //@   ensures c != nil ==> c.order.len == 0
 
+//@ func ValidateDocument
+//@   trusted
+//@   assigns nothing
+//@ func PlanQuery
+//@   trusted
+//@   assigns nothing
+//@ func normalizeDocument
+//@   trusted
+//@   assigns nothing
+//@ func planAndValidate
+//@   trusted
+//@   assigns nothing
+
 //@ func PlanCache.Get
 //@   props C06 C12
 //@   nosafety
